@@ -14,7 +14,7 @@ const char *verif_rule =
     "single-body mode: at most one delivery per transfer, per-block mode: the final block at most once and, on success, the pieces tile [0,total); every token seen by a handler "
     "is an application token; every datagram <= the sender's MTU; release callback exactly once per accepted coap_add_data_large_* call by the time the contexts are freed; "
     "without faults: exactly one complete delivery and exactly one success response; with faults on a CON transfer the requester ends with a success response, an error response or a NACK. "
-    "Non-trivial = body > one block and (a fault hit a block message, or the length is on a block boundary +-1, or the block size was reduced by the MTU); distinct = by configuration + wire trace";
+    "Non-trivial = body > one block and (a fault hit a block message, or the length is on a block boundary +-1, or the block size was reduced by the MTU); distinct = by configuration + wire trace One case in eight (last tape byte) is scenario (S): a scripted peer uploads two bodies to one resource of a libcoap server at the same time (blocks interleaved, 16..128 byte blocks, with / without Size1), told apart by Request-Tag (one of them may go without); loss-free: every piece the server application obtains is the bytes of one upload at that offset, each body is completed exactly once, each upload ends 2.04.";
 size_t verif_max_tape = 200;
 
 namespace {
@@ -157,7 +157,125 @@ void verif_init() {
   coap_set_log_level(getenv("C09_DEBUG") ? COAP_LOG_DEBUG : COAP_LOG_EMERG);
 }
 
+// ---- scenario (S): a scripted peer (not libcoap) uploads two bodies to ONE resource of a libcoap server at the same time, its blocks interleaved;
+// the uploads are told apart by the Request-Tag option (RFC 9175 3.3: one of them may go without; libcoap's own client always sends one).
+// Loss-free network: each body reaches the handler exactly once and intact, each upload is answered 2.04.
+struct SUpload { std::vector<uint8_t> body, rtag, token; bool tagged = false; unsigned next = 0; bool done = false; int final_code = -1; unsigned complete = 0; };
+struct SCase { World *w; std::vector<SUpload> up; bool single = true; unsigned bad_pieces = 0; std::string first_bad; } *GS = nullptr;
+
+void s_handler(coap_resource_t *, coap_session_t *, const coap_pdu_t *request, const coap_string_t *, coap_pdu_t *response) {
+  size_t len = 0, offset = 0, total = 0;
+  const uint8_t *data = nullptr;
+  coap_get_data_large(request, &len, &data, &offset, &total);
+  bool final_up = offset + len >= total;
+  // which upload is this a piece of?  (the bodies differ in every block)
+  int who = -1;
+  for (size_t i = 0; i < GS->up.size(); i++) {
+    auto &b = GS->up[i].body;
+    if (offset + len <= b.size() && len > 0 && memcmp(data, b.data() + offset, len) == 0) who = (int)i;
+  }
+  char nb[160];
+  snprintf(nb, sizeof nb, "SRV piece off=%zu len=%zu total=%zu -> %s", offset, len, total, who < 0 ? "NO UPLOAD HAS THESE BYTES AT THIS OFFSET" : who == 0 ? "X" : "Y");
+  GS->w->callback(nb);
+  if (who < 0) { GS->bad_pieces++; if (GS->first_bad.empty()) GS->first_bad = nb; }
+  else if (final_up && offset + len == GS->up[(size_t)who].body.size() && (!GS->single || offset == 0)) GS->up[(size_t)who].complete++;
+  coap_pdu_set_code(response, final_up ? COAP_RESPONSE_CODE_CHANGED : COAP_RESPONSE_CODE_CONTINUE);
+}
+
+int scripted_uploads(const uint8_t *tape, size_t tlen, Info *info) {
+  std::vector<uint8_t> rev(tape, tape + tlen - 1);
+  std::reverse(rev.begin(), rev.end());
+  Tape t(rev.data(), rev.size());
+  SCase sc;
+  GS = &sc;
+  World w;
+  sc.w = &w;
+  seed_prng(t.u16());
+  sc.single = t.flag();
+  unsigned szx = t.range(0, 3);
+  size_t bs = (size_t)16 << szx;
+  size_t tagging = t.pick({2, 2, 1});   // X untagged / Y tagged; X tagged / Y untagged; both tagged (different tags)
+  bool size1 = t.flag();
+  for (unsigned i = 0; i < 2; i++) {
+    SUpload u;
+    size_t nblk = t.range(2, 5);
+    u.body = make_body(nblk * bs - (t.flag() ? t.range(0, (uint32_t)bs - 1) : 0), 700 + i);
+    u.tagged = tagging == 2 || tagging == i;
+    u.rtag = {(uint8_t)(0x30 + i), (uint8_t)t.u8()};
+    u.token = {(uint8_t)(0xD0 + i), 0x11};
+    sc.up.push_back(u);
+  }
+  coap_context_t *sctx = coap_new_context(nullptr);
+  if (!sctx) { GS = nullptr; return OUT_OF_DOMAIN; }
+  coap_context_set_block_mode(sctx, COAP_BLOCK_USE_LIBCOAP | (sc.single ? COAP_BLOCK_SINGLE_BODY : 0));
+  Addr srv = Addr::v4(10, 0, 0, 1, 5683);
+  coap_address_t la;
+  srv.to_coap(&la);
+  coap_new_endpoint(sctx, &la, COAP_PROTO_UDP);
+  coap_resource_t *res = coap_resource_init(coap_make_str_const("s"), 0);
+  coap_register_handler(res, COAP_REQUEST_PUT, s_handler);
+  coap_add_resource(sctx, res);
+  w.add_context(sctx);
+  Peer *peer = w.add_peer(Addr::v4(10, 0, 3, 1, 40001));
+  uint16_t mid = 0x4000;
+  std::vector<uint32_t> gaps;
+  for (int i = 0; i < 16; i++) gaps.push_back(t.pick({2, 1}) ? 0 : t.range(1, 40));
+  unsigned sent_blocks = 0;
+  auto send_block = [&](unsigned i) {
+    SUpload &u = sc.up[i];
+    size_t off = (size_t)u.next * bs;
+    if (off >= u.body.size()) return;
+    size_t n = std::min(bs, u.body.size() - off);
+    bool more = off + n < u.body.size();
+    ref::Msg m;
+    m.type = 0; m.code = 3; m.mid = mid++; m.token = u.token;
+    m.opts.push_back(ref::Opt{11, {'s'}});
+    m.opts.push_back(ref::Opt{27, simh::uint_opt((uint32_t)u.next << 4 | (more ? 8 : 0) | szx)});
+    if (size1 && u.next == 0) m.opts.push_back(ref::Opt{60, simh::uint_opt((uint32_t)u.body.size())});
+    if (u.tagged) m.opts.push_back(ref::Opt{292, u.rtag});
+    m.payload.assign(u.body.begin() + (long)off, u.body.begin() + (long)(off + n));
+    uint32_t gap = gaps[sent_blocks++ % gaps.size()];
+    w.peer_send(peer, srv, ref::encode(m, ref::F_UDP), gap);
+  };
+  peer->on_rx = [&](World &, Peer &, const Datagram &d) {
+    ref::Msg r;
+    if (!simh::parse(d.data, &r) || r.code < 64) return;
+    for (unsigned i = 0; i < 2; i++) if (r.token == sc.up[i].token && !sc.up[i].done) {
+      if (r.code == 0x5f) { sc.up[i].next++; send_block(i); }      // 2.31 Continue: the next block of this upload
+      else { sc.up[i].done = true; sc.up[i].final_code = r.code; }
+    }
+  };
+  unsigned first = t.flag() ? 1 : 0;
+  send_block(first);
+  send_block(1 - first);
+  bool quiet = w.run(w.now + 120000, 40000);
+  int verdict = HELD;
+  char cfg[200];
+  snprintf(cfg, sizeof cfg, "scripted peer, two interleaved Block1 uploads to one resource: %s server, %zu byte blocks, X %zu bytes %s, Y %zu bytes %s, Size1 %s; ", sc.single ? "single-body" : "per-block",
+           bs, sc.up[0].body.size(), sc.up[0].tagged ? "tagged" : "untagged", sc.up[1].body.size(), sc.up[1].tagged ? "tagged" : "untagged", size1 ? "sent" : "not sent");
+  if (sc.bad_pieces) { info->fail("%s%u piece(s) handed to the server application are not the bytes of either upload at that offset (first: %s)", cfg, sc.bad_pieces, sc.first_bad.c_str()); verdict = VIOLATION; }
+  else if (quiet) for (unsigned i = 0; i < 2 && verdict == HELD; i++) {
+    SUpload &u = sc.up[i];
+    if (u.complete != 1) { info->fail("%sloss-free network: the body of upload %s was completed at the server application %u time(s)", cfg, i ? "Y" : "X", u.complete); verdict = VIOLATION; }
+    else if (u.final_code != 0x44) { info->fail("%sloss-free network: upload %s ended with %s instead of 2.04", cfg, i ? "Y" : "X", u.final_code < 0 ? "no response" : (std::to_string(u.final_code >> 5) + "." + std::to_string(u.final_code & 31)).c_str()); verdict = VIOLATION; }
+  }
+  if (!quiet) info->inconclusive = true;
+  info->nontrivial = true;
+  info->label("scripted-peer:two-interleaved-uploads-one-resource");
+  info->label(tagging == 2 ? "scripted-peer:both-tagged" : "scripted-peer:one-untagged");
+  info->rs(cfg);
+  info->rs(simh::render_trace(w, 40));
+  info->mix(cfg, strlen(cfg));
+  for (auto &e : w.trace) if (e.kind == EV_SEND) { info->mixu(e.t); info->mix(e.data.data(), std::min<size_t>(e.data.size(), 24)); }
+  w.remove_context(sctx);
+  coap_free_context(sctx);
+  GS = nullptr;
+  return verdict;
+}
+
 int verif_case(const uint8_t *tape, size_t tlen, Info *info) {
+  // (last tape byte, longer tapes only: the saved replays keep their meaning) one case in eight is scenario (S)
+  if (tlen >= 48 && tape[tlen - 1] < 32) return scripted_uploads(tape, tlen, info);
   Tape t(tape, tlen);
   Case cs;
   G = &cs;
